@@ -72,7 +72,7 @@ class CppCliBaseCommentModel(BaseModel):
     def deprecated(self):
         message = ""
         if isinstance(self.decl.deprecated, str):
-            message = '("' + self.decl.deprecated.replace('\n', r'\n').replace('"', r'\"') + '")'
+            message = '("' + self.decl.deprecated.replace('\\', r'\\').replace('\n', r'\n').replace('"', r'\"') + '")'
         return f"[System::Obsolete{message}]"
 
 
